@@ -60,9 +60,6 @@ func Eval(s Stmt, d V) (Tri, Why) {
 			if hasNaN(s.Val) || hasNaN(v) || hasUint(s.Val) || hasUint(v) {
 				return Unresolved, WUnspecified
 			}
-			if !SameKeyOrder(s.Val, v) {
-				return Unresolved, WUnspecified
-			}
 			return b2t(Equal(s.Val, v)), WNone
 		case "like":
 			if v.K != KString {
